@@ -311,6 +311,8 @@ ADDENDA11 = {
     'C12': ' The statement pool holds a class without attributes, associations to and from it, a row and an identifier of it.',
     'C18': ' The chunks carry a two-attribute-key association; an identifier listing the referred attributes the other way round is '
            'added to one built metamodel.',
+    'C19': ' Names family: attribute names drawn from the identifiers of the library\'s own code objects (209 quick / 351 thorough) in every '
+           'creation form and route, read back and cloned.',
     'C20': ' A second data type under the name of an existing enumeration / user type is added in every other place.',
 }
 for _k, _v in ADDENDA11.items():
